@@ -70,6 +70,12 @@ theorem client_mapping_binary_custom : goClientErr true false .customMessage = .
 theorem client_status_tests :
     Gen.Pipeline.clientErrorThreshold = ">= 400" ∧ Gen.Pipeline.clientValidationStatusTest = "== http.StatusBadRequest" := by decide
 
+/-- **tie**: the emitted Go client reads the WHOLE response body, once, before it looks at the status — so what
+`handleErrorResponse` classifies (`goClientErr`) is the body the server sent, whatever its size (regenerated from the
+emitted client; seed C10-r8-1 read failed responses through a 4 KiB `io.LimitReader`, after which a long
+`ValidationError` no longer decodes and reaches the caller as a plain error). -/
+theorem client_reads_whole_body : Gen.Pipeline.clientBodyReads = ["io.ReadAll(resp.Body)"] := by decide
+
 /-- **TS client mapping**: for EVERY status and body, the emitted TS client raises a ValidationError
 exactly for a 400 that carries violations, and otherwise an ApiError with the response's own status
 (a validation failure whose status a hook changed to 422 stays an ApiError 422). -/
